@@ -471,4 +471,33 @@ PROPERTIES = {
             "thorough": {"module_property_sets_compared": 20000000, "wildcard_entries": 3000000, "typed_reads": 30000},
         },
     },
+    "C18": {
+        "level": "exploration",
+        "crash_is_violation": True,
+        "rule": ("grammar-based generator of valid, realisable descriptions over a pool of 12 module names: acyclic submodule / inheritance structure, own and "
+                 "inherited gates (atoms and clusters 1..3), submodule fields (atoms and clusters), generic modules with a bound whose fields are typed with the "
+                 "binding and which are instantiated with the bound or an heir, connections local<->local, local<->child, child<->child as whole clusters (equal "
+                 "instance counts, pairwise) or pinned single indices, optional links; every gate instance gets at most one connection per level. The document is "
+                 "rendered to YAML and goes through serde_yml -> Def -> transform -> Ndl::build into a Sim with a recording registry. Oracle = independent "
+                 "reference elaborator: module set path -> software symbol (as seen by the registry), gate clusters per module, set of direct gate connections "
+                 "with link latency / bitrate (read through both connection slots of every gate) must be equal, no more, no fewer. Then three single-point "
+                 "mutations per document out of 23 operators (dangling type / inherit / entry / link, unknown gate / submodule, index out of bounds, zero-sized "
+                 "gate or submodule cluster, unequal peers, inheritance and submodule cycles, malformed type clauses, generic without arguments, wrong arity, "
+                 "non-conforming argument, generic module or binding as argument, binding with arguments, deleted line, inserted garbage): never a panic; "
+                 "structural mutants must be rejected with a non-empty message and a kind other than Other. FromStr / Display round trips of FieldDef, TypClause, "
+                 "ConnectionEndpointDef. Non-trivial = valid document with >= 3 modules and a connection that checked clean; distinct = hash of the text."),
+        "assumptions": ["the YAML parser itself is part of the pipeline: a crash inside it counts"],
+        "stages": [
+            native("ndl", "desmon", "c18", tiers=QT, timeout={"quick": 900, "thorough": 5400}),
+            {"name": "asan", "crate": "desmon", "cmd": "c18", "mode": "asan", "tiers": T, "args": {"thorough": ["--budget", "2000"]},
+             "timeout": {"thorough": 3600}, "counter_prefix": "asan_"},
+        ],
+        "floor": {
+            "quick": {"valid_documents_built": 45000, "modules_compared": 600000, "connections_compared": 450000, "gate_clusters_compared": 900000,
+                      "documents_with_type_arguments": 5000, "documents_with_inheritance": 10000, "documents_with_links": 5000,
+                      "mutants_executed": 100000, "mutants_that_must_be_rejected": 60000, "mutants_MalformedClauseNoClose": 500,
+                      "mutants_GenericModuleAsArg": 300, "mutants_BindingAsArg": 300, "mutants_BindingWithArgs": 300, "mutants_TextGarbage": 1000},
+            "thorough": {"valid_documents_built": 300000, "mutants_executed": 800000, "mutants_that_must_be_rejected": 600000, "asan_valid_documents_built": 20000},
+        },
+    },
 }
